@@ -14,7 +14,7 @@ def children(n):
     """Direct child nodes (dicts with 'k' or arm dicts) of a HIR node."""
     if isinstance(n, dict):
         for key, v in n.items():
-            if key in ("ty", "sp", "exp", "adj", "ty_adj", "recv_adj", "gargs", "inst_args",
+            if key in ("ty", "sp", "se", "exp", "adj", "ty_adj", "recv_adj", "gargs", "inst_args",
                        "captures", "base_adj"):
                 continue
             if isinstance(v, dict):
